@@ -30,7 +30,7 @@ def required(tier):
     req = []
     for which in (1, 2):
         req += ['g%d.mul/%s' % (which, rep) for rep in gen.REPS + ['id-' + i for i in gen.ID_REPS] + ['outside']]
-        req += ['g%d.rmul' % which, 'g%d.law/distrib' % which, 'g%d.law/compat' % which, 'g%d.law/zero' % which, 'g%d.law/one' % which,
+        req += ['g%d.rmul' % which, 'g%d.rmul/identity' % which, 'g%d.law/distrib' % which, 'g%d.law/compat' % which, 'g%d.law/zero' % which, 'g%d.law/one' % which,
                 'g%d.law/r-1' % which, 'g%d.order' % which, 'g%d.mul/pow2' % which]
     return req
 
@@ -96,6 +96,8 @@ def run(ctx, spec):
         k, _c = gen.scalar_r(rng)
         reg, i = pr.let(g + '.mul', O, h32(k))
         exp[i] = ('%s.mul/id-%s' % (g, idr), None, (which, 'id', idr, k), False)
+        reg, i = pr.let(g + '.rmul', h32(k), O)
+        exp[i] = ('%s.rmul/identity' % g, None, (which, 'rid', idr, k), False)
         # arbitrary curve point (outside the subgroup for G2)
         T = points.rand_curve_point(rng, 1) if which == 1 else rm.gmul(2, rng.randrange(1, r))   # G2: the property covers the subgroup only
         if which == 1 and rng.random() < 0.5:
